@@ -3,7 +3,7 @@ import hashlib
 from props.common import *   # noqa
 from engine import conc, crash
 
-W_ARGS = dict(pids=["a", "b"], contents=[b"x", b"0123456789ab"], formats=[None], fake_cid=False)
+W_ARGS = dict(pids=["a", "b"], contents=[C_ONE, C_MULTI], formats=[None], fake_cid=False)
 
 INITS = [
     ("empty store", {}),
